@@ -10,6 +10,7 @@ import (
 	"fmt"
 	"math"
 	"os"
+	"sort"
 	"strings"
 	"testing"
 
@@ -83,6 +84,14 @@ func buildLayout(e *engkit.Eng, layout string) error {
 			return err
 		}
 		return w(s2, engkit.Pt{T: 2, V: 2})
+	case "1tsm-2blocks":
+		if err := w(s1, engkit.Pt{T: 1, V: 1}, engkit.Pt{T: 2, V: 2}, engkit.Pt{T: 3, V: 3}); err != nil {
+			return err
+		}
+		if err := w(s2, engkit.Pt{T: 1, V: 1}, engkit.Pt{T: 2, V: 2}); err != nil {
+			return err
+		}
+		return e.E.WriteSnapshot()
 	case "2tsm+cache":
 		if err := w(s1, engkit.Pt{T: 1, V: 1}); err != nil {
 			return err
@@ -301,10 +310,10 @@ type HCase struct {
 }
 
 func hAlphabet(thorough bool) []HOp {
-	a := []HOp{{Kind: "snap"}, {Kind: "reopen"}, {Kind: "write", T: 2},
-		{Kind: "del", Min: 1, Max: 3}, {Kind: "del", Min: 1, Max: 2}, {Kind: "del", Min: 1, Max: 1}, {Kind: "del", Min: 2, Max: 3}, {Kind: "del", Min: 2, Max: 2}}
+	a := []HOp{{Kind: "snap"}, {Kind: "reopen"}, {Kind: "compact"}, {Kind: "write", T: 2},
+		{Kind: "del", Min: 1, Max: 3}, {Kind: "del", Min: 1, Max: 2}, {Kind: "del", Min: 1, Max: 1}, {Kind: "del", Min: 2, Max: 3}, {Kind: "del", Min: 2, Max: 2}, {Kind: "del", Min: 3, Max: 3}}
 	if thorough {
-		a = append(a, HOp{Kind: "del", Min: 3, Max: 3}, HOp{Kind: "write", T: 1}, HOp{Kind: "del", Min: 0, Max: 9})
+		a = append(a, HOp{Kind: "write", T: 1}, HOp{Kind: "del", Min: 0, Max: 9})
 	}
 	return a
 }
@@ -361,6 +370,16 @@ func runHistory(hc HCase) (verdicts []string, outcome string) {
 			err = e.E.WriteSnapshot()
 		case "reopen":
 			err = e.Reopen()
+		case "compact":
+			// the engine's own full-compaction strategy on all current TSM files (a no-op with < 1 file)
+			var group []string
+			for _, f := range e.E.FileStore.Files() {
+				group = append(group, f.Path())
+			}
+			sort.Strings(group)
+			if len(group) > 0 {
+				e.E.VerifApplyFullCompaction(group)
+			}
 		case "write":
 			wn++
 			v := float64(100*wn) + float64(op.T)
@@ -400,7 +419,7 @@ func histories(thorough bool) []HCase {
 	}
 	al := hAlphabet(thorough)
 	var out []HCase
-	for _, lay := range []string{"cache", "tsm+cache", "2tsm+cache"} {
+	for _, lay := range []string{"cache", "tsm+cache", "2tsm+cache", "1tsm-2blocks"} {
 		var rec func(cur []HOp)
 		rec = func(cur []HOp) {
 			if len(cur) > 0 {
@@ -417,7 +436,7 @@ func histories(thorough bool) []HCase {
 				return
 			}
 			for _, o := range al {
-				if len(cur) > 0 && cur[len(cur)-1].Kind == o.Kind && (o.Kind == "snap" || o.Kind == "reopen") {
+				if len(cur) > 0 && cur[len(cur)-1].Kind == o.Kind && (o.Kind == "snap" || o.Kind == "reopen" || o.Kind == "compact") {
 					continue
 				}
 				rec(append(cur, o))
@@ -484,7 +503,7 @@ func explore(t *testing.T, sc Scenario, bound int, stop func() bool, visit func(
 func TestCheck(t *testing.T) {
 	vlib.Main(t, &vlib.Check{
 		ID: "C03", Level: "model_checking",
-		Rule: "(1) sequential histories: every sequence of ≤3 (thorough ≤4) ops over {snapshot, reopen, overwrite s1 t=2, delete s1 over [1,3],[1,2],[1,1],[2,3],[2,2] (ranges sharing a bound)} containing a delete, from 3 layouts, on a real engine; after EVERY step and after a final restart both series are read and compared with a map model. (2) scenarios = 3 initial layouts (cache only; 1 TSM file + cache; 2 TSM files + cache) × delete ranges {[2,2],[all],[1,2]} of series s1 (points t=1,2,3; control series s2) × {no writer, concurrent writer of s1 t=2 (in range), concurrent writer of s1 t=4 (out of range)} with the delete (Engine.DeleteSeriesRange) running concurrently with Engine.WriteSnapshot on a real tsm1.Engine (tsi1, series file, WAL); every interleaving with ≤ B preemptions (B=1 quick, 2 thorough) at the sync/atomic operations of engine.go and cache.go; after the threads finish the series are read, then a later snapshot is written and the data read again, then the engine is reopened and read again. states = decision nodes, transitions = scheduling steps, traces = executions; non-trivial = executions with ≥1 preemption",
+		Rule: "(1) sequential histories: every sequence of ≤3 (thorough ≤4) ops over {snapshot, reopen, overwrite s1 t=2, delete s1 over [1,3],[1,2],[1,1],[2,3],[2,2] (ranges sharing a bound)} containing a delete (plus full compaction of all TSM files as an op), from 4 layouts incl. one TSM file holding the series in two blocks (the build uses DefaultMaxPointsPerBlock=2 so that multi-block keys are reachable with 3 points), on a real engine; after EVERY step and after a final restart both series are read and compared with a map model. (2) scenarios = 3 initial layouts (cache only; 1 TSM file + cache; 2 TSM files + cache) × delete ranges {[2,2],[all],[1,2]} of series s1 (points t=1,2,3; control series s2) × {no writer, concurrent writer of s1 t=2 (in range), concurrent writer of s1 t=4 (out of range)} with the delete (Engine.DeleteSeriesRange) running concurrently with Engine.WriteSnapshot on a real tsm1.Engine (tsi1, series file, WAL); every interleaving with ≤ B preemptions (B=1 quick, 2 thorough) at the sync/atomic operations of engine.go and cache.go; after the threads finish the series are read, then a later snapshot is written and the data read again, then the engine is reopened and read again. states = decision nodes, transitions = scheduling steps, traces = executions; non-trivial = executions with ≥1 preemption",
 		Assumptions: []string{"sequentially consistent interleavings at the granularity of Engine/Cache mutex and atomic operations; goroutines inside FileStore/Compactor/WAL run unscheduled between those points",
 			"level/full compactions concurrent with the delete are not yet part of this check (the engine aborts them before deleting)"},
 		QuickBudgetS: 100, ThoroughBudgetS: 1200, WorkerEnv: []string{"GOMAXPROCS=1"},
